@@ -307,13 +307,13 @@ Section Proto2.
                  ++ [EPutTx i (T <| t_details := TChange chs' |> <| t_props := Some (map fst chs) |>)], RDone)
             | TRollback ri =>
               match txs w !! ri with
-              | None => (fail_init i T FNotFound, RDone)
+              | None => (fail_init i T FNotFound, RRequeueTx (i + 1))
               | Some R =>
                 match t_details R with
                 | TChange chs =>
                   (create_props w i (map (fun tc => (fst tc, new_rollback_prop ri)) chs)
                      ++ [EPutTx i (T <| t_props := Some (map fst chs) |>)], RDone)
-                | TRollback _ => (fail_init i T FForbidden, RDone)
+                | TRollback _ => (fail_init i T FForbidden, RRequeueTx (i + 1))
                 end
               end
             end
@@ -344,6 +344,10 @@ Section Proto2.
 
   Context (ch_empty : Ch).
 
+  (* requeueNext: the successor of a proposal waits for it in every phase and is only looked at again when re-queued *)
+  Definition requeue_next (t : N) (P : prop) : result :=
+    if p_next P =? 0 then RDone else RRequeueProp (t, p_next P).
+
   Definition vfail (k : N * N) (P : prop) (f : ftype) : list eff * result :=
     ([EPutProp k (P <| p_validate := Some Failed |> <| p_vfail := Some f |>)], RDone).
 
@@ -356,7 +360,7 @@ Section Proto2.
       | Some a, _, _, _, _ =>
         match a, cfgs w !! t with
         | Doing, Some C =>
-          if i <=? c_applied C then ([EPutProp k (P <| p_apply := Some Done |> <| p_term := c_aterm C |>)], RDone)
+          if i <=? c_applied C then ([EPutProp k (P <| p_apply := Some Done |> <| p_term := c_aterm C |>)], requeue_next t P)
           else if negb (p_prev P =? 0) && negb (c_applied C =? p_prev P) then ([], RRequeueProp (t, p_prev P))
           else if bool_decide (c_state C = CSynchronizing) then ([], RDone)
           else if is_none (targets w !! t) then ([], RDone)
@@ -379,15 +383,17 @@ Section Proto2.
                   | COk =>
                     ([ev; EPutAValues t (record_applied i (c_avalues C) (aview C) (view C) ch);
                       EPutCfg t (C <| c_applied := i |> <| c_inline := touched i (view C) ch |> <| c_ainline := v_empty |>);
-                      EPutProp k (P <| p_apply := Some Done |> <| p_term := c_term C |>)], RDone)
+                      EPutProp k (P <| p_apply := Some Done |> <| p_term := c_term C |>)], requeue_next t P)
                   | _ =>
                     match classify (observed a) with
                     | ClsRetry => ([ev], RRetry)
                     | ClsWait => ([ev], RDone)
                     | ClsFail f =>
-                      ([ev; EPutAValues t (restore (c_avalues C) (aview C));
-                        EPutCfg t (C <| c_applied := i |> <| c_inline := touched i (view C) ch |> <| c_ainline := v_empty |>);
-                        EPutProp k (P <| p_apply := Some Failed |> <| p_afail := Some f |> <| p_term := c_term C |>)], RDone)
+                      (* the failure is recorded on the proposal first, then the applied index passes it *)
+                      ([ev; EPutProp k (P <| p_apply := Some Failed |> <| p_afail := Some f |> <| p_term := c_term C |>);
+                        EPutAValues t (restore (c_avalues C) (aview C));
+                        EPutCfg t (C <| c_applied := i |> <| c_inline := touched i (view C) ch |> <| c_ainline := v_empty |>)],
+                       requeue_next t P)
                     end
                   end
                 end
@@ -395,19 +401,28 @@ Section Proto2.
             | _ => ([], RDone)
             end
           end
-        | Done, _ => if p_next P =? 0 then ([], RDone) else ([], RRequeueProp (t, p_next P))
+        | Done, _ => ([], requeue_next t P)
+        | Failed, Some C =>
+          (* passFailedProposal: the applied index moves past a proposal whose apply failed *)
+          ((if c_applied C <? i then upd_status t C (C <| c_applied := i |>) else []), requeue_next t P)
         | _, _ => ([], RDone)
         end
       | None, Some ab, _, _, _ =>
         match ab, cfgs w !! t with
         | Doing, Some C =>
           if (c_committed C =? p_prev P) && (c_applied C =? p_prev P) then
-            (upd_status t C (C <| c_committed := i |> <| c_applied := i |>) ++ [EPutProp k (P <| p_abort := Some Done |>)], RDone)
+            (upd_status t C (C <| c_committed := i |> <| c_applied := i |>) ++ [EPutProp k (P <| p_abort := Some Done |>)], requeue_next t P)
           else if c_committed C =? p_prev P then
             (upd_status t C (C <| c_committed := i |>), RDone)
           else if (c_applied C =? p_prev P) && (i <=? c_committed C) then
-            (upd_status t C (C <| c_applied := i |>) ++ [EPutProp k (P <| p_abort := Some Done |>)], RDone)
-          else ([], RDone)
+            (upd_status t C (C <| c_applied := i |>) ++ [EPutProp k (P <| p_abort := Some Done |>)], requeue_next t P)
+          else if (i <=? c_committed C) && (i <=? c_applied C) then
+            (* both indexes have already passed the proposal: only its status is left to write *)
+            ([EPutProp k (P <| p_abort := Some Done |>)], requeue_next t P)
+          else
+            (* neither index can be moved yet: wait for the predecessor *)
+            ([], if p_prev P =? 0 then RDone else RRequeueProp (t, p_prev P))
+        | Done, _ => ([], requeue_next t P)
         | _, _ => ([], RDone)
         end
       | None, None, Some c, _, _ =>
@@ -419,8 +434,8 @@ Section Proto2.
                EPutCfg t (C <| c_index := match p_details P with PChange _ => i | PRollback _ => p_rbindex P end |>
                             <| c_committed := i |> <| c_inline := v_empty |> <| c_ainline := aview C |>)]
             else [] in
-          (merge ++ [EPutProp k (P <| p_commit := Some Done |>)], RDone)
-        | Done, _ => if p_next P =? 0 then ([], RDone) else ([], RRequeueProp (t, p_next P))
+          (merge ++ [EPutProp k (P <| p_commit := Some Done |>)], requeue_next t P)
+        | Done, _ => ([], requeue_next t P)
         | _, _ => ([], RDone)
         end
       | None, None, None, Some v, _ =>
